@@ -90,7 +90,11 @@ pub fn run_felts(v: &[BigUint], deep_limit: usize) -> FeltResult {
         if statements <= deep_limit {
             let o = run_pipeline(prog, &[Solver::Linear], true);
             deep_stage = Some(o.summary());
-            panics.extend(o.panics);
+            // the program came out of the deserialiser: say so in the entry point name
+            panics.extend(o.panics.into_iter().map(|mut p| {
+                p.at = format!("extract_sierra_program -> {}", p.at);
+                p
+            }));
         }
     }
     FeltResult { class_ok: a.is_some(), codec_ok: b.is_some(), panics, inconsistent, deep_stage, statements }
